@@ -20,6 +20,7 @@ REPO = os.environ.get('GLV_REPO', '/repo')
 BUILD = os.path.join(VERIF, 'build')
 GLFACTS = os.path.join(BUILD, 'bin', 'glfacts')
 GLFACTS_SRC = os.path.join(VERIF, 'tool', 'glfacts.cc')
+EXTRA_UNITS = [os.path.join(VERIF, 'fixtures', 'nn_inst.cpp')]
 
 
 class AnalysisBroken(Exception):
@@ -188,6 +189,7 @@ def facts_key(precision, roles, extra=()):
     h = hashlib.sha256()
     h.update(_hash_files(source_inputs() + cmake_inputs()).encode())
     h.update(str(os.path.getmtime(GLFACTS_SRC)).encode())
+    h.update(_hash_files(EXTRA_UNITS).encode())
     h.update(repr((precision, sorted(roles), tuple(extra))).encode())
     return h.hexdigest()[:20]
 
@@ -216,9 +218,14 @@ def load_program(precision=2, roles=('src', 'tools'), verbose=False):
             for src, e in sorted(units.items()):
                 rel = os.path.relpath(src, REPO).replace(os.sep, '__')
                 jobs.append((src, unit_flags(e), os.path.join(udir, rel + '.json')))
+            # explicit instantiation units for header-only templates (analysed, never linked)
+            libflags = next((unit_flags(e) for s_, e in sorted(units.items()) if '/src/' in s_), None)
+            for extra in EXTRA_UNITS:
+                if libflags is not None and os.path.exists(extra):
+                    jobs.append((extra, libflags, os.path.join(udir, 'extra__' + os.path.basename(extra) + '.json')))
             with ThreadPoolExecutor(16) as ex:
                 outs = list(ex.map(lambda j: extract_unit(*j), jobs))
-            raw = ir.merge_units(outs, [unit_flags(e) for _, e in sorted(units.items())])
+            raw = ir.merge_units(outs, [j[1] for j in jobs])
             raw['flags'] = {src: unit_flags(e) for src, e in units.items()}
             raw['cfgdir'] = cfg
             raw['precision'] = precision
